@@ -40,7 +40,7 @@ def compare_poly(got, want, exact, what, scale=None):
 
 def judge_from_opgraph(graph, L, qd, opmap, poly, rec, magsum=None):
     """MPO conversion of a consistent graph: charges from nodes, nid_map, tensor slices, dense meaning."""
-    mpo = ptn.MPO.from_opgraph(qd, graph, opmap, compute_nid_map=True)
+    mpo = ptn.MPO.from_opgraph(qd, graph, opmap, compute_nid_map=[True, 1, np.True_][L % 3])
     require(mpo.nsites == L, 'MPO has the wrong number of sites', got=mpo.nsites, want=L)
     require(len(mpo.qD) == L + 1, 'wrong number of bond charge lists')
     nid_map = mpo.nid_map
